@@ -8,7 +8,7 @@ export GOFLAGS=-mod=mod GOPROXY=off GOSUMDB=off GOTOOLCHAIN=local GOWORK=off
 SD=$(readlink -f "$1"); NAME=$2; shift 2
 V=$(cd "$(dirname "$0")/.." && pwd)
 IDS="$@"; [ -z "$IDS" ] && IDS=$("${DVERIF:-$V/bin/dverif}" list | cut -d' ' -f1)
-WT=$(mktemp -d /tmp/cs-XXXXXX); rmdir "$WT"
+WT=$(mktemp -d /tmp/cs-XXXXXX) || exit 9; [ -n "$WT" ] || exit 9; rmdir "$WT"
 git -C /repo worktree add -q --detach "$WT" HEAD || exit 9
 cleanup() { git -C /repo worktree remove --force "$WT" 2>/dev/null; rm -rf "$WT" "$WT.ev"; }
 trap cleanup EXIT
@@ -16,7 +16,7 @@ LOG="$V/seeded/.log-$NAME.txt"; mkdir -p "$V/seeded"; : > "$LOG"
 timeout 600 bash "$SD/demo/run.sh" "$WT" >>"$LOG" 2>&1; rc_clean=$?
 (cd "$WT" && git checkout -q -- . && git clean -fdq)
 if ! git -C "$WT" apply "$SD/patch.diff" 2>>"$LOG"; then echo "$NAME: PATCH-NOAPPLY"; exit 3; fi
-if ! (cd "$WT" && go build ./... >>"$LOG" 2>&1); then echo "$NAME: NOBUILD"; exit 4; fi
+if ! (cd "$WT" && go build -trimpath ./... >>"$LOG" 2>&1); then echo "$NAME: NOBUILD"; exit 4; fi
 base=$(timeout 600 "$V/scripts/baseline_off.sh" "$WT" | head -1)
 timeout 600 bash "$SD/demo/run.sh" "$WT" >>"$LOG" 2>&1; rc_patched=$?
 (cd "$WT" && git clean -fdq -- '*_test.go' '*zz_*' >/dev/null 2>&1; true)
